@@ -11,7 +11,7 @@
 (***************************************************************************)
 EXTENDS Ops, TLC, Json
 CONSTANTS NP, Len0, EMIT
-VARIABLES sq, recipe, dup, meas, bad
+VARIABLES sq, recipe, dup, meas, bad, cache
 a345  == <<Q(3, 5), Q(4, 5)>>
 a435  == <<Q(4, 5), Q(3, 5)>>
 am345 == <<Q(-3, 5), Q(4, 5)>>
@@ -47,14 +47,15 @@ Init == /\ sq \in [1 .. NP -> 0 .. 4]
         /\ dup \in BOOLEAN /\ meas \in {"all", "partial"} /\ bad \in {"none", "wrongpair", "toomuch", "phase"}
         /\ (bad # "none") => (dup /\ meas = "all")             \* one defect at a time
         /\ (~dup \/ meas = "partial") => bad = "none"
-Next == UNCHANGED <<sq, recipe, dup, meas, bad>>
-Spec == Init /\ [][Next]_<<sq, recipe, dup, meas, bad>>
+Next == UNCHANGED <<sq, recipe, dup, meas, bad, cache>>
 \* the source is inside the device's promise iff: no defect, interferometer duplicated (or empty), all modes measured
 InsidePromise == bad = "none" /\ (dup \/ recipe = << >>) /\ meas = "all"
-State == ApplySeq(VacuumN(NMod), Source, K)
+State == cache
+Init0 == Init /\ cache = ApplySeq(VacuumN(NMod), Source, K)
 StateOK == Symmetric(State) /\ ModeUncertainty(State)
 \* the device template: S2 on every pair, NP(NP-1)/2 Mach-Zehnder gates per half in the symmetric rectangular arrangement,
 \* final phase on every mode, one photon counting of all modes
 EmitInv == EMIT => PrintT(ToJson([np |-> NP, source |-> Source, measured |-> IF meas = "all" THEN [i \in 1 .. NMod |-> i - 1] ELSE [i \in 1 .. NMod - 1 |-> i - 1],
                                    inside |-> InsidePromise, bad |-> bad, dup |-> dup, st |-> State]))
+Spec == Init0 /\ [][Next]_<<sq, recipe, dup, meas, bad, cache>>
 =============================================================================
